@@ -782,12 +782,17 @@ func main() {
 	status := 0
 	for _, fl := range files {
 		path := filepath.Join(*repo, fl.Src)
-		f, err := parser.ParseFile(fset, path, nil, 0)
+		var f *ast.File
+		var err error
 		var b strings.Builder
 		fmt.Fprintf(&b, "(* GENERATED by /verif/translator from %s on every run.  Do not edit. *)\n", fl.Src)
 		fmt.Fprintf(&b, "From Coq Require Import ZArith NArith List Bool.\nImport ListNotations.\n\n")
 		var lostItems []string
-		if err != nil {
+		if fl.Special == "inventory" { // Src is a package directory
+			s, ls := inventory(path)
+			b.WriteString(s)
+			lostItems = append(lostItems, ls...)
+		} else if f, err = parser.ParseFile(fset, path, nil, 0); err != nil {
 			lostItems = append(lostItems, fmt.Sprintf("anchor %s lost: parse error: %v", fl.Out, err))
 		} else {
 			if fl.Special == "fn" {
